@@ -28,7 +28,7 @@ func selfTestPlans(spec *propSpec, b *build) []selfPlan {
 	}
 	switch spec.id {
 	case "C13":
-		return []selfPlan{{bin: b.race, race: true, args: base, runs: n, label: "C13"}}
+		return []selfPlan{{bin: b.race, race: true, args: append(append([]string{}, base...), "-ref", scratch+"/ref.json"), runs: n, label: "C13"}}
 	case "C14":
 		return []selfPlan{{bin: b.plain, args: base, runs: n * 4, label: "C14"}}
 	case "C12":
